@@ -3,8 +3,12 @@ from __future__ import annotations
 
 import gc
 import itertools
+import mmap
+import os
+import pickle
 import re
 import signal
+import struct
 import time
 
 from .. import runner as R
@@ -28,10 +32,57 @@ ASSUMPTIONS = [
 ]
 
 HORIZON_S = 20
+STALL_S = 45            # no progress for this long => the child is killed from outside (a regex blow-up cannot be interrupted from inside)
 
 
 class Timeout(Exception):
     pass
+
+
+class Skipped(Exception):
+    pass
+
+
+class UnitAborted(Exception):
+    pass
+
+
+SLOW_S = 4.0            # CPU seconds for one load of an input below 20 000 characters (a normal load takes about a millisecond)
+SLOW_SEEN = [0]
+IN_SHRINK = [False]
+
+
+_COUNT = [0]            # executions started in this (child) process
+_SKIP = [0]             # executions to skip (already done / timed out before a restart)
+_CAPTURE = [None, None]  # (index to capture, captured text) - used by the parent to recover the text of a stalled execution
+_CTR = [None]           # shared mmap holding the progress counter
+
+
+_ALIVE = [0]
+
+
+def alive():
+    """harness-side progress (context enumeration, completions, seed preparation): keeps the watchdog from mistaking harness work for a stall"""
+    _ALIVE[0] += 1
+    if _CTR[0] is not None and _CAPTURE[0] is None:
+        _CTR[0].seek(8)
+        _CTR[0].write(struct.pack("q", _ALIVE[0]))
+
+
+def guarded_loads(text, **kw):
+    """the only place where C11 enters the implementation: ticks the progress counter first"""
+    _COUNT[0] += 1
+    n = _COUNT[0]
+    if _CAPTURE[0] is not None:
+        if n == _CAPTURE[0]:
+            _CAPTURE[1] = text
+        raise Skipped()
+    if n <= _SKIP[0]:
+        raise Skipped()
+    if _CTR[0] is not None:
+        _CTR[0].seek(0)
+        _CTR[0].write(struct.pack("q", n))
+    return impl.loads(text, **kw)
 
 
 def _alarm(signum, frame):
@@ -42,14 +93,30 @@ FLAGS = [dict()]       # the option set classify() runs under (default options, 
 
 
 def classify(text, include_ok=False):
-    """(category, message).  category None = conforming outcome"""
+    """(category, message).  category None = conforming outcome; 'slow' when one load burns more than SLOW_S CPU seconds"""
+    t0 = time.process_time()
+    cat, msg = _classify(text, include_ok)
+    dt = time.process_time() - t0
+    if cat == "timeout":
+        SLOW_SEEN[0] += 1
+    if cat is None and dt > SLOW_S and len(text) < 20000 and not IN_SHRINK[0]:
+        SLOW_SEEN[0] += 1
+        return "slow", "loads used %.1f s of CPU time on a %d-character input" % (dt, len(text))
+    return cat, msg
+
+
+def _classify(text, include_ok=False):
+    if SLOW_SEEN[0] >= 3:
+        raise UnitAborted()
     signal.signal(signal.SIGALRM, _alarm)
     signal.setitimer(signal.ITIMER_REAL, HORIZON_S)
     try:
         try:
-            d = impl.loads(text, expand_includes=True, **FLAGS[0])
+            d = guarded_loads(text, expand_includes=True, **FLAGS[0])
         finally:
             signal.setitimer(signal.ITIMER_REAL, 0)
+    except Skipped:
+        return "skipped", None
     except Timeout:
         return "timeout", "no result within %d s" % HORIZON_S
     except RecursionError:
@@ -82,12 +149,17 @@ INCLUDE_RE = re.compile(r"(?im)^\s*include")
 def run_text(res, text, sub, sigtext=None, replay_extra=None):
     inc = bool(INCLUDE_RE.search(text))
     cat, msg = classify(text, include_ok=inc)
+    if cat == "skipped":
+        return True
     res["evals"] += 1
     if cat is None:
         R.add_outcome(res, msg.split(":")[0] if msg else "ok")
         res["states"].add(R.h64((msg, text[:200], len(text))))
         return True
     R.add_outcome(res, cat)
+    if cat in ("slow", "timeout"):
+        R.add_violation(res, "%s|%s" % (cat, text[:120].replace("\n", " ")), "loads is not prompt: " + (msg or ""), {"text": text, "storm": True}, {"sub_space": sub})
+        return False
     small = shrink(text, cat)
     R.add_violation(res, "%s%s|%s" % (cat, "|flags" if FLAGS[0] else "", small if len(small) < 200 else small[:200]), "loads neither parses nor raises a parse error: " + (classify(small, inc)[1] or msg),
                     {"text": small, "flags": dict(FLAGS[0])}, {"sub_space": sub, "original": text[:500]})
@@ -101,6 +173,14 @@ def shrink(text, cat):
     if len(spans) > 400 or not spans:
         return text
     inc = bool(INCLUDE_RE.search(text))
+    IN_SHRINK[0] = True
+    try:
+        return _shrink(text, cat, spans, inc)
+    finally:
+        IN_SHRINK[0] = False
+
+
+def _shrink(text, cat, spans, inc):
     cur = []
     for i, (a, b) in enumerate(spans):
         sep = text[spans[i - 1][1]: a] if i else ""
@@ -182,8 +262,9 @@ def units(tier):
 def run_lalr(res, k, shard, nshards):
     from .. import lalr
 
+    alive()
     ex = lalr.Explorer(k)
-    ctxs = ex.contexts()
+    ctxs = ex.contexts(progress=alive)
     keys = sorted(ctxs.keys())
     if ex.unmodelled:
         R.add_skip(res, "terminals without lexemes: %s" % ex.unmodelled)
@@ -194,12 +275,14 @@ def run_lalr(res, k, shard, nshards):
         path, ip = ctxs[c]
         prefix = " ".join(lx for _, lx in path)
         acc = ip.accepts()
+        alive()
         for tname in ex.term_names + ["$END"]:
             lexemes = ex.terms.get(tname, [""]) if tname != "$END" else [""]
             for lx in lexemes:
                 text = (prefix + " " + lx).strip()
                 variants = [text]
                 if tname in acc and tname != "$END":
+                    alive()
                     try:
                         ip2 = ex.feed(ip, tname, lx)
                         comp = ex.completion(ip2)
@@ -222,7 +305,9 @@ def run_lalr(res, k, shard, nshards):
 
 # ------------------------------------------------------------------ (b)+(d) mutations
 def run_mut(res, tier, idx):
+    alive()
     label, text = seeds(tier)[idx]
+    alive()
     spans = tokenize(text)
     toks = [text[a:b] for a, b in spans]
     seps = [text[spans[i][1]: spans[i + 1][0]] for i in range(len(spans) - 1)]
@@ -275,11 +360,14 @@ def run_mut(res, tier, idx):
         line = mutated.count("\n", 0, at) + 1
         col = at - (mutated.rfind("\n", 0, at) + 1) + 1
         assert mutated[at] == "@", (mutated[at - 3: at + 3])
-        res["evals"] += 1
         try:
-            impl.loads(mutated, expand_includes=False)
+            guarded_loads(mutated, expand_includes=False)
+            res["evals"] += 1
             R.add_violation(res, "at_accepted|" + label, "a text containing a bare '@' was accepted", {"text": mutated}, None)
+        except Skipped:
+            continue
         except Exception as e:
+            res["evals"] += 1
             if impl.is_lark_error(e) and (getattr(e, "line", None), getattr(e, "column", None)) == (line, col):
                 R.add_outcome(res, "error_position_exact")
             elif impl.is_lark_error(e) and was_valid(text):
@@ -324,6 +412,8 @@ def run_roots(res):
             cat, msg = classify(text)
             res["evals"] += 1
             n += 1
+            if cat == "skipped":
+                continue
             if cat is None and msg == "accepted":
                 R.add_outcome(res, "root_accepted")
                 res["states"].add(R.h64(text))
@@ -470,7 +560,7 @@ def measure(text):
         for _ in range(3):
             t0 = time.perf_counter()
             try:
-                impl.loads(text, expand_includes=False)
+                guarded_loads(text, expand_includes=False)
             except Exception:
                 pass
             dt = time.perf_counter() - t0
@@ -509,7 +599,110 @@ def run_timing(res, idx):
 
 
 def run_unit(unit):
+    if unit[0] == "STORM":
+        res = R.new_result()
+        run_storm(res, unit[1], unit[2])
+        return res
+    return run_guarded(unit)
+
+
+def run_guarded(unit):
+    """run the unit in a forked child watched from outside: if the progress counter stands still for STALL_S seconds the child is
+    killed, the stalled input is reported as a timeout violation and a new child continues after it"""
+    total = R.new_result()
+    skip = 0
+    for attempt in range(6):
+        ctr = mmap.mmap(-1, 16)
+        ctr.write(struct.pack("qq", 0, 0))
+        r_fd, w_fd = os.pipe()
+        pid = os.fork()
+        if pid == 0:
+            try:
+                os.close(r_fd)
+                _CTR[0] = ctr
+                _COUNT[0] = 0
+                _SKIP[0] = skip
+                try:
+                    payload = ("ok", run_unit_inner(unit))
+                except BaseException:
+                    import traceback
+
+                    payload = ("err", traceback.format_exc())
+                with os.fdopen(w_fd, "wb") as f:
+                    pickle.dump(payload, f)
+            finally:
+                os._exit(0)
+        os.close(w_fd)
+        last, last_live, last_change = -1, -1, time.time()
+        stalled = False
+        limit = STALL_S * (3 if unit[0] == "TIMING" else 1)
+        chunks = []
+        import select
+
+        eof = False
+        while True:
+            # drain the result pipe while waiting (a large result would otherwise block the child in write())
+            rd, _, _ = select.select([r_fd], [], [], 0.25)
+            if rd:
+                b = os.read(r_fd, 1 << 20)
+                if b:
+                    chunks.append(b)
+                    last_change = time.time()
+                    continue
+                eof = True
+            if eof:
+                os.waitpid(pid, 0)
+                break
+            ctr.seek(0)
+            cur, live = struct.unpack("qq", ctr.read(16))
+            if cur != last or live != last_live:
+                last, last_live, last_change = cur, live, time.time()
+            elif time.time() - last_change > limit:
+                stalled = True
+                os.kill(pid, signal.SIGKILL)
+                os.waitpid(pid, 0)
+                break
+        os.close(r_fd)
+        data = b"".join(chunks)
+        ctr.close()
+        if not stalled:
+            if data:
+                status, payload = pickle.loads(data)
+                if status == "ok":
+                    R.merge(total, payload)
+                    return total
+                raise RuntimeError(payload)
+            raise RuntimeError("C11 child for unit %r died without a result" % (unit,))
+        # recover the text of the stalled execution by enumerating (without executing) in this process
+        _COUNT[0] = 0
+        _SKIP[0] = 0
+        _CAPTURE[0], _CAPTURE[1] = last, None
+        try:
+            run_unit_inner(unit)
+        except BaseException:
+            pass
+        text = _CAPTURE[1]
+        _CAPTURE[0], _CAPTURE[1] = None, None
+        total["evals"] += last - skip
+        R.add_outcome(total, "timeout")
+        R.add_violation(total, "timeout|%s" % ((text or "?")[:80].replace("\n", " ")), "loads made no progress for %d s on a %d-character input (child process killed)" % (
+            limit, len(text or "")), {"text": text, "storm": True}, {"unit": repr(unit), "execution_index": last})
+        skip = last
+    total["caps"].append("unit %r: more than 5 stalled executions, rest of the unit not explored" % (unit,))
+    return total
+
+
+def run_unit_inner(unit):
+    SLOW_SEEN[0] = 0
     res = R.new_result()
+    try:
+        _run_unit_inner(unit, res)
+    except UnitAborted:
+        res["caps"].append("unit %r stopped after 3 slow loads (each reported as a violation)" % (unit,))
+    return res
+
+
+def _run_unit_inner(unit, res):
     k = unit[0]
     if k == "LALR":
         run_lalr(res, unit[1], unit[2], unit[3])
